@@ -875,7 +875,7 @@ impl<'a> Model<'a> {
                                 return R::Fail;
                             }
                         }
-                        let flav = if g.op == CtxRep { Flav::Vec } else { g.p.flav };
+                        let flav = if g.op == CtxRep && !matches!(g.p.flav, Flav::Unit | Flav::Count) { Flav::Vec } else { g.p.flav };
                         let v = match flav {
                             Flav::Unit => Val::Unit,
                             Flav::Vec | Flav::Arr2 | Flav::Arr3 => Val::Seq(items.into_iter().map(|(v, _, _, _, _)| v).collect()),
